@@ -351,6 +351,13 @@ class LoopMixin:
             if ao.kind != "normal":
                 outs.append(ao)
                 continue
+            # ghost code at the start of every iteration: the declarative specification written as a fold over the elements
+            # (`_x` is the current element); the invariant then ties the code's decisions to it
+            if spec.get("ghost_step"):
+                gs = ao.st
+                gs.frames[gs.fid]["_x"] = el if el.k != "tuple" else SV("val", sq[i]) if sq is not None else el
+                for gname, gsrc in spec["ghost_step"]:
+                    gs.frames[gs.fid][gname] = self.spec_value(gs, gsrc, gs.fid, gs.heap0, gs.entry_frame, {})
             for bo in self.exec_block(s.body, ao.st):
                 if bo.kind in ("normal", "continue"):
                     self.inv_eval(bo.st, spec, {"_i": SV("int", i + 1), "_s": sqv, "_done": done_next}, tag + ":keep", True)
@@ -363,6 +370,11 @@ class LoopMixin:
                     bo.st.writes = st.writes + self.summary_writes(spec)
                     outs.append(bo)
         # 3. exit: invariant at i == n
+        if isinstance(s.target, ast.Name) and sq is not None and s.target.id not in ex.frames[ex.fid]:
+            # after the loop the target still holds the last element (Python semantics); with an empty sequence it would be
+            # unbound and any later use an UnboundLocalError -- such a use is reported as outside the subset only then
+            lastv = sq[n - 1]
+            ex.frames[ex.fid][s.target.id] = self.elem_value(ex, sq, hint, mode, n - 1) if True else SV("val", lastv)
         self.inv_eval(ex, spec, {"_i": SV("int", n), "_s": sqv, "_done": sqv}, tag, False)
         ex.trail.append("loop#%s:exit" % k)
         ex.writes = st.writes + self.summary_writes(spec)
